@@ -59,6 +59,9 @@ def choose_tolerancing(case, o):
     want = case.get("want_type")
     pool = [c for c in cands if not (c["type"] == "thickness" and c["k"] == n and comps)]
     chosen = []
+    if case.get("own") and comps:
+        # a tolerance on the compensator's own parameter (the focus gap is both perturbed and re-optimised)
+        chosen.append({"type": "thickness", "k": n})
     if want:
         w = [c for c in pool if c["type"] == want]
         if w:
@@ -240,6 +243,26 @@ def session(tr, case, number):
     except Exception as ex:
         exc2 = "%s: %s" % (type(ex).__name__, ex)
     tr.emit("reset", exc=exc2, proj=R.proj_dy(o), zmax=dy(R.zmax(o)))
+    if case.get("whatif") and case["comps"]:
+        # the user's own what-if study on the same Tolerancing object: perturb, compensate, perturb
+        # again, compensate again (no reset in between), then reset(): back at the nominal prescription
+        exc3 = ""
+        try:
+            with warnings.catch_warnings():
+                warnings.simplefilter("ignore")
+                tol.perturbations[0].apply()
+                G.quiet(tol.apply_compensators)
+                tol.perturbations[-1].apply()
+                G.quiet(tol.apply_compensators)
+                if case.get("whatif") == "rerun":
+                    # ... and a complete run afterwards must still end at nominal
+                    an2 = SensitivityAnalysis(tol) if analysis == "sens" else MonteCarlo(tol)
+                    G.quiet(an2.run) if analysis == "sens" else G.quiet(an2.run, 2)
+                    tr.emit("reset", exc="", proj=R.proj_dy(o), zmax=dy(R.zmax(o)), after="whatif+run")
+            tol.reset()
+        except Exception as ex:
+            exc3 = "%s: %s" % (type(ex).__name__, ex)
+        tr.emit("reset", exc=exc3, proj=R.proj_dy(o), zmax=dy(R.zmax(o)), after="whatif")
     return None
 
 
@@ -263,7 +286,8 @@ def _run_case(case):
 
 def classify(case):
     perts = case.get("perts", [])
-    return {"analysis": {"sens": "sensitivity", "mc": "monte_carlo"}[case["analysis"]],
+    return {"history": "whatif" if case.get("whatif") else ("own_parameter" if case.get("own") else "run"),
+            "analysis": {"sens": "sensitivity", "mc": "monte_carlo"}[case["analysis"]],
             "has_compensator": bool(case.get("comps")),
             "index_perturbation_on_dispersive_glass": case["family"] == "glass" and any(p["type"] == "index" for p in perts),
             "seeded": not any(p["sampler"]["kind"] in ("normal", "uniform") and p["sampler"].get("seed") is None
